@@ -45,6 +45,8 @@ type options struct {
 	only           int
 	out            string
 	racebin        string
+	finebin        string
+	fine           bool
 	selftest       bool
 	evidenceDir    string
 	replayDir      string
@@ -76,6 +78,8 @@ func Main() {
 	flag.IntVar(&o.only, "only", -1, "internal: run a single index")
 	flag.StringVar(&o.out, "out", "", "internal: worker summary file")
 	flag.StringVar(&o.racebin, "racebin", "", "path of the -race build of this binary")
+	flag.StringVar(&o.finebin, "finebin", "", "path of the statement-level-yield build of this binary")
+	flag.BoolVar(&o.fine, "fine", false, "internal: this is the fine-grained share of the batch")
 	flag.BoolVar(&o.selftest, "selftest", false, "determinism self-test")
 	flag.IntVar(&o.selftestN, "selftest-n", 200, "runs per property in the self-test")
 	flag.StringVar(&o.evidenceDir, "evidence", "/verif/evidence", "")
@@ -128,6 +132,12 @@ func fatal2(format string, args ...interface{}) int {
 }
 
 func runsFor(p *Prop, tier string, race bool) int {
+	if FineBuild {
+		if tier == "thorough" {
+			return p.FineThorough
+		}
+		return p.FineQuick
+	}
 	if race {
 		if tier == "thorough" {
 			return p.RaceThorough
@@ -143,6 +153,9 @@ func runsFor(p *Prop, tier string, race bool) int {
 func buildName() string {
 	if RaceBuild {
 		return "race"
+	}
+	if FineBuild {
+		return "fine"
 	}
 	return "normal"
 }
@@ -323,6 +336,20 @@ func replayMain(o *options) int {
 	p := Props[rf.Property]
 	if p == nil {
 		return fatal2("unknown property %q", rf.Property)
+	}
+	if rf.Build == "fine" && !FineBuild {
+		if o.finebin == "" {
+			return fatal2("replay needs the fine-grained build (-finebin)")
+		}
+		cmd := exec.Command(o.finebin, os.Args[1:]...)
+		cmd.Stdout, cmd.Stderr = os.Stdout, os.Stderr
+		if err := cmd.Run(); err != nil {
+			if ee, ok := err.(*exec.ExitError); ok {
+				return ee.ExitCode()
+			}
+			return 2
+		}
+		return 0
 	}
 	if rf.Build == "race" && !RaceBuild {
 		if o.racebin == "" {
@@ -669,6 +696,7 @@ type batchAgg struct {
 
 type crashInfo struct {
 	idx            int
+	fine           bool
 	race           bool
 	stderr         string
 	offset, stride int
@@ -726,7 +754,7 @@ func runShare(bin string, o *options, race bool, agg *batchAgg, mu *sync.Mutex) 
 					return
 				}
 				mu.Lock()
-				agg.crashes = append(agg.crashes, crashInfo{r.crashIdx, race, r.stderr, offset, o.workers})
+				agg.crashes = append(agg.crashes, crashInfo{idx: r.crashIdx, race: race, stderr: r.stderr, offset: offset, stride: o.workers})
 				mu.Unlock()
 				// continue after the crashed run
 				offset = r.crashIdx + o.workers
@@ -770,6 +798,28 @@ func parentMain(o *options) int {
 		agg.crashes = append(agg.crashes, raceAgg.crashes...)
 		agg.faults = append(agg.faults, raceAgg.faults...)
 	}
+	// the fine-grained share: the same property in the build whose library copy yields to the
+	// scheduler before every statement
+	var fineAgg *batchAgg
+	fineRuns := p.FineQuick
+	if o.tier == "thorough" {
+		fineRuns = p.FineThorough
+	}
+	if fineRuns > 0 && o.runs == 0 && o.finebin != "" {
+		if _, err := os.Stat(o.finebin); err == nil {
+			fineAgg = &batchAgg{counters: map[string]int64{}, foreign: map[string]int64{}, sigs: map[uint64]bool{}, ngrams: map[uint64]bool{}, schedSigs: map[uint64]bool{}}
+			runShare(o.finebin, o, false, fineAgg, &mu)
+			agg.viols = append(agg.viols, fineAgg.viols...)
+			for i := range fineAgg.crashes {
+				fineAgg.crashes[i].fine = true
+			}
+			agg.crashes = append(agg.crashes, fineAgg.crashes...)
+			agg.faults = append(agg.faults, fineAgg.faults...)
+			for g := range fineAgg.schedSigs {
+				agg.schedSigs[g] = true
+			}
+		}
+	}
 	if len(agg.faults) > 0 {
 		return fatal2("%s", strings.Join(agg.faults, "; "))
 	}
@@ -793,6 +843,9 @@ func parentMain(o *options) int {
 		bin := self
 		if rf.Build == "race" {
 			bin = o.racebin
+		}
+		if rf.Build == "fine" {
+			bin = o.finebin
 		}
 		if rf.NeedsShare {
 			if !verifyShare(bin, o, rf) {
@@ -855,6 +908,9 @@ func parentMain(o *options) int {
 		if cr.race {
 			bin = o.racebin
 		}
+		if cr.fine {
+			bin = o.finebin
+		}
 		origClass, _, origFuncs := stderrSignature(cr.stderr)
 		attempts := 1
 		if origClass == "DATA_RACE" {
@@ -915,6 +971,9 @@ func parentMain(o *options) int {
 		if cr.race {
 			build = "race"
 		}
+		if cr.fine {
+			build = "fine"
+		}
 		rf := &ReplayFile{Property: o.prop, Seed: o.seed, Run: cr.idx, Tier: o.tier, Build: build, Alloc: o.alloc, Violation: v,
 			Stderr: append(sig, funcs...), Note: note}
 		if share || !confirmed {
@@ -935,6 +994,21 @@ func parentMain(o *options) int {
 		exit = 1
 	}
 	wall := time.Since(t0).Seconds()
+	if fineAgg != nil {
+		agg.counters["fine_build.runs"] = fineAgg.runs
+		for k, v := range fineAgg.counters {
+			if strings.HasPrefix(k, "probe.switch_at_") || strings.HasPrefix(k, "sched.") {
+				agg.counters["fine_build."+k] = v
+			}
+		}
+		agg.runs += fineAgg.runs
+		agg.nonTriv += fineAgg.nonTriv
+		agg.events += fineAgg.events
+		agg.ops += fineAgg.ops
+		for g := range fineAgg.sigs {
+			agg.sigs[g^0xF1] = true
+		}
+	}
 	if err := writeEvidence(o, p, agg, raceAgg, wall, nViol, len(knownHit)); err != nil {
 		return fatal2("cannot write evidence: %v", err)
 	}
@@ -1052,7 +1126,15 @@ func selftestMain(o *options) int {
 	}
 	bad := 0
 	for _, id := range props {
-		for _, alloc := range []string{"", "real", "fence"} {
+		allocs := []string{"", "real", "fence"}
+		if o.finebin != "" && Props[id].FineQuick > 0 {
+			allocs = append(allocs, "fine-build")
+		}
+		for _, alloc := range allocs {
+			bin := self
+			if alloc == "fine-build" {
+				bin, alloc = o.finebin, ""
+			}
 			var ref map[int]string
 			for _, wc := range []int{1, 4, 16} {
 				oo := *o
@@ -1066,7 +1148,7 @@ func selftestMain(o *options) int {
 					wg.Add(1)
 					go func() {
 						defer wg.Done()
-						r := launchWorker(self, &oo, false, w, wc, -1, "-hashes")
+						r := launchWorker(bin, &oo, false, w, wc, -1, "-hashes")
 						mu.Lock()
 						defer mu.Unlock()
 						if r.sum != nil {
@@ -1103,7 +1185,7 @@ func selftestMain(o *options) int {
 					bad++
 				}
 			}
-			fmt.Printf("selftest %s alloc=%q: %d runs x 3 process layouts (1/4/16 workers) + tape replay: %s\n", id, alloc, len(ref), map[bool]string{true: "identical", false: "DIFFERENT"}[bad == 0])
+			fmt.Printf("selftest %s alloc=%q build=%s: %d runs x 3 process layouts (1/4/16 workers) + tape replay: %s\n", id, alloc, filepath.Base(bin), len(ref), map[bool]string{true: "identical", false: "DIFFERENT"}[bad == 0])
 		}
 	}
 	if bad > 0 {
